@@ -145,6 +145,11 @@ func (v *visitor) VisitCondition(ctx *gen.ConditionContext) any {
 		} else if parts[0] == "urns" {
 			propType = PropertyTypeURN
 			propKey = parts[1]
+
+			// same restriction as a URN scheme without the prefix
+			if v.env.RedactionPolicy() == envs.RedactionPolicyURNs && value != "" {
+				v.addError(NewQueryError(ErrRedactedURNs, "cannot query on redacted URNs"))
+			}
 		} else {
 			v.addError(NewQueryError(ErrUnknownPropertyType, "unknown property type '%s'", parts[0]).withExtra("type", parts[0]))
 		}
